@@ -145,3 +145,9 @@ func VHIter() {
 	seq := h.Values()
 	containers.VIterStep(func() containers.IteratorWithIndex[int] { return h.Iterator() }, seq, h)
 }
+
+// VHSnap: returned slices are snapshots, argument slices are copied, GetSortedValues leaves the container alone (C16).
+func VHSnap() {
+	c, _ := VGHeap()
+	containers.VSnapStep(containers.VSnap{C: c, Mutate: []func(){c.Clear, func() { c.Push(v.Int("m")) }, func() { c.Pop() }}, AddArgs: []func([]int){func(a []int) { c.Push(a...) }}})
+}
